@@ -525,6 +525,19 @@ def order_of(ctx: Ctx, f: Func, expr: ast.AST, depth: int = 0, _seen: Optional[S
         for meth, call in muts:
             if meth in ("append", "extend"):
                 loop = _enclosing_for(call, f)
+                # a search loop (`for types, convert in table: if ...: acc.append(convert(item)); break`) adds at most
+                # one element per pass of the loop around it: the order is that of the outer loop
+                while loop is not None and meth == "append":
+                    blk = None
+                    for b_ in ast.walk(loop):
+                        for fld in ("body", "orelse"):
+                            ss = getattr(b_, fld, None)
+                            if isinstance(ss, list) and any(isinstance(s_, ast.Expr) and s_.value is call for s_ in ss):
+                                blk = ss
+                    if blk and isinstance(blk[-1], ast.Break) and _enclosing_for(blk[-1], f) is loop and _enclosing_for(loop, f) is not None:
+                        loop = _enclosing_for(loop, f)
+                    else:
+                        break
                 if loop is None:
                     states.append(("unknown", f"{meth} outside a loop"))
                     continue
